@@ -112,8 +112,12 @@ def sc_slow_waiter(r, threads):
     """many back-to-back one-ply searches: each `go` meets its predecessor running, just finishing, or just finished (run with slow
     condition-variable waiters, harness/slowwait.c); every go must still get its bestmove and the engine must stay responsive"""
     s = prologue(threads)
-    for _ in range(r.choice([60, 100, 140])):
-        s += [("send", "position startpos"), ("send", "go depth 1"), ("sleep", r.choice([0.0, 0.0, 0.0005, 0.001, 0.002, 0.004, 0.008]))]
+    for i in range(r.choice([60, 100, 140])):
+        s += [("send", "position startpos"), ("send", "go depth 1")]
+        if i % 2 == 0:      # the next go arrives while this search is running or just finishing
+            s += [("sleep", r.random() * 0.003)]
+        else:               # ... or right after its bestmove, while the engine thread still collects acknowledgements / marks the search finished
+            s += [("bm", 20), ("sleep", r.random() * r.choice([0.0002, 0.001, 0.004]))]
     s += [("bmall", 20), ("send", "isready"), ("line", "readyok", 10)]
     return s + [("send", "quit")]
 
@@ -391,6 +395,7 @@ def run(ctx):
         sw = make_sessions(ctx, binary, net, 2 if quick else 10, [1, 3] if quick else [1, 2, 3, 5, 8], want_events=False, scripts={"slow-waiter": sc_slow_waiter})
         for x in sw:
             x.env["LD_PRELOAD"] = shim; x.env["VERIF_SLOWWAIT_US"] = "2000"
+            x.env["TEXEL_VERIF_YIELD"] = f"{ctx.rng.randrange(1 << 30)}:500"
         t0 = time.time()
         run_sessions(sw, 4 if quick else 6)
         ctx.log(f"{len(sw)} slow-waiter sessions in {time.time() - t0:.1f}s")
